@@ -589,6 +589,126 @@ def run(chk):
                    "every throwing call precedes the first change of the grid")
     chk.floor("C14-D8.late", nlate, 3, "throwing calls in grid-class mutators that also change the grid")
 
+    # ------------------------------------------------------------------ D12 the pending-refinement members change together or not at all
+    chk.rule("C14-D12.group", "the members that clearRefinement() of a grid class resets form the pending-refinement group of that class (Global, Fourier: needed, updated_tensors, "
+                              "updated_active_tensors, updated_active_w); they are written and read back together, so a grid that has some of them set is not a grid the reader accepts. "
+                              "Along every path of every mutating method, once one member of the group has been written, no call that can still throw (C14-D8's feasibility) is made until the whole "
+                              "group has been written or reset, and no method returns with a part of the group written: a rejected refinement leaves the pending refinement as it was, an accepted "
+                              "one leaves a state that write() / read() reproduce")
+    from tsg.effects import Effects
+    from tsg.flow import forward
+    effg = Effects(db)
+    ngrp = 0
+    ngroups = 0
+    for cls in GRIDCLS:
+        crs = db.fns(cls + "::clearRefinement", required=False)
+        if not crs:
+            continue
+        G = frozenset(short(fld) for w, fld, kd in member_writes(crs[0], into_lambda=False))
+        if len(G) < 2:
+            continue
+        ngroups += 1
+        chk.note("C14-D12.group", crs[0].where, "%s: group %s" % (short(cls), sorted(G)))
+        # the co-serialized part of the group: the writer of the class tests one member and stores several under that test
+        FLAG, SUB = None, frozenset()
+        for wf in db.fns(cls + "::write", required=False):
+            for a in wf.walk():
+                if a.get("k") != "IfStmt" or a.get("cond") is None or a.get("then") is None:
+                    continue
+                cm = {short(member_of(q) or "") for q in [a["cond"]] + list(walk(a["cond"])) if q.get("k") == "MemberExpr"} & G
+                tm = {short(member_of(q) or "") for q in walk(a["then"]) if q.get("k") == "MemberExpr"} & G
+                if len(cm) == 1 and len(tm | cm) >= 2:
+                    FLAG, SUB = next(iter(cm)), frozenset(tm | cm)
+        if FLAG is None:
+            raise AnalysisBroken("C14-D12: the writer of %s does not store part of the group %s under the emptiness of one member" % (cls, sorted(G)))
+        chk.note("C14-D12.group", crs[0].where, "%s: written under `!%s.empty()`: %s" % (short(cls), FLAG, sorted(SUB)))
+        summ = {}
+
+        def summary(t):
+            k = (t.key, t.sig)
+            if k not in summ:
+                summ[k] = frozenset(short(x) for x in effg.closure(t)) & G
+            return summ[k]
+        for f in allf:
+            if f.cls != cls or f.d.get("const") or f.d.get("isctor") or f.d.get("isdtor") or f.d.get("islambda") or short(f.name).startswith("read"):
+                continue
+            direct_w = {}
+            resets = set()
+            for w, fld, kd in member_writes(f, into_lambda=False):
+                if short(fld) in G:
+                    direct_w.setdefault(w.get("id"), set()).add(short(fld))
+                    if kd == "assign" and short(fld) == FLAG:
+                        ch = [x for x in w.get("c", []) if isinstance(x, dict)]
+                        rhs = strip(ch[-1]) if ch else None
+                        while rhs is not None and rhs.get("k") in ("MaterializeTemporaryExpr", "CXXBindTemporaryExpr", "CXXFunctionalCastExpr", "ExprWithCleanups"):
+                            rhs = strip(rhs["c"][0]) if rhs.get("c") else None
+                        if rhs is not None and rhs.get("k") in ("CXXTemporaryObjectExpr", "CXXConstructExpr") and not [x for x in rhs.get("c", []) if isinstance(x, dict)]:
+                            resets.add(w.get("id"))
+            this_calls = {c.get("id"): t for c, t in effg.this_calls(f)}
+            if not direct_w and not any(summary(t) for t in this_calls.values()):
+                continue
+            risky = {}
+            for c in f.calls(into_lambda=False):
+                if not is_reachable(f, c) or gpu_only_call(f, c) or any(a.get("k") == "CXXTryStmt" for a in f.ancestors(c)):
+                    continue
+                for t in P2.targets(f, c):
+                    r = may_throw(t)
+                    if r and feasible_at(f, c, t):
+                        risky[c.get("id")] = (c, t, r)
+                        break
+            chk.saw(f)
+            cfg = f.cfg
+            found = {}
+
+            def step(states, e):
+                n = f.nodes.get(e)
+                if n is None:
+                    return states
+                nid = n.get("id")
+                if nid in risky:
+                    for st in states:
+                        if st and st != G:
+                            found.setdefault(nid, set()).add(st)
+                if nid in resets:
+                    # the flag member is emptied: the writer then stores none of the co-serialized members, whatever they hold
+                    return frozenset(frozenset(st - SUB) for st in states)
+                add = set(direct_w.get(nid, ()))
+                t = this_calls.get(nid)
+                if t is not None:
+                    sm = summary(t)
+                    if sm == G:
+                        return frozenset([frozenset()])        # the callee rewrites the whole group (its own body is checked by this rule)
+                    add |= sm
+                if not add:
+                    return states
+                out = set()
+                for st in states:
+                    ns = frozenset(st | add)
+                    out.add(frozenset() if ns == G else ns)
+                return frozenset(out)
+
+            def transfer(states, blk):
+                for e in blk["e"]:
+                    if isinstance(e, int):
+                        states = step(states, e)
+                return states
+            IN = forward(cfg, frozenset([frozenset()]), transfer, lambda st, blk, i: st, lambda a, b: a | b)
+            atexit = sorted(sorted(x) for x in (IN.get(cfg.exit) or ()) if FLAG in x and not SUB <= x)
+            if any(FLAG in v for v in direct_w.values()):
+                ngrp += 1
+                chk.ob("C14-D12.group", f.key + f.sig, "`%s` is stored together with %s at every return" % (FLAG, sorted(SUB - {FLAG})), not atexit, f.where,
+                       "the method can return with %s written but not %s" % (atexit[0], sorted(SUB - set(atexit[0]))) if atexit else "",
+                       "a method that sets the member whose emptiness the writer tests also sets the members that are written and read under that test")
+            for nid, (c, t, r) in risky.items():
+                sts = found.get(nid)
+                ngrp += 1
+                chk.ob("C14-D12.group", f.key + f.sig, "call of %s (may throw in %s) at line %d" % (short(t.name), short(r[0].name), c.get("l", 0)), not sts, f.loc(c),
+                       "the call can fail when only %s of the group %s has been written" % (sorted(sorted(x) for x in sts)[0], sorted(G)) if sts else "",
+                       "every throwing call is made while the pending-refinement group is untouched or completely rewritten")
+    if ngroups < 2:
+        raise AnalysisBroken("C14-D12: fewer than two grid classes with a multi-member pending-refinement group")
+    chk.floor("C14-D12.group", ngrp, 3, "throwing calls in methods that write the pending-refinement group")
+
     # ------------------------------------------------------------------ D11 nested-only machinery behind Global grids
     chk.rule("C14-D11.nested", "GridGlobal / DynamicConstructorDataGlobal routines that build point sets with generateNestedPoints outside an isNonNested() alternative are reachable from the API "
                                "only behind a rejection of non-nested rules: directly (isNonNested / isSequence test that throws), or through the construction flag, which is raised only "
